@@ -22,6 +22,8 @@ fn main() {
         match cli.prop.as_str() {
             "C14" => c14::run_prop(&cli).await,
             "C15" => c15::run_prop(&cli).await,
+            // C13 at the listener: which key a connection is charged to (admission clauses of C15)
+            "C13" => c15::run_prop(&cli).await,
             "C16" => c16::run_prop(&cli).await,
             "C17" => c17::run_prop(&cli).await,
             other => {
